@@ -128,6 +128,16 @@ def run_case(case, built=None, keep_obs=False):
     dyn = set()
     for r in refs.values():
         dyn |= r.dyn
+    if obs.verdict:
+        # a hang where the statement of a construct demands an error result also refutes that construct's property
+        extra = set()
+        for r in refs.values():
+            if r.outcome[0] != 'value':
+                for cse in r.outcome[1]:
+                    extra |= {'badlabel': {'C09'}, 'oneof': {'C10'}, 'rec': {'C11'}}.get(cse[0], set())
+        for f in findings:
+            if f['kind'] in ('deadlock', 'livelock'):
+                f['prop'] = sorted(set(f['prop']) | extra)
     if faults:
         dyn |= gen.pessimistic_tags(prog)
     stats['invocations'] = sum(1 for r in obs.trace if r['k'] == 'body_start')
